@@ -43,6 +43,7 @@ This file is part of libECBUFR.
 
 static void bufr_copy_DescValue ( BufrDescValue *dest, BufrDescValue *src );
 static void bufr_free_desc_array( char *list );
+static char *bufr_next_tmplt_value( char **rest, const char *delims );
 
 /**
  * @english
@@ -713,7 +714,13 @@ BUFR_Template *bufr_load_template( const char *filename, BUFR_Tables *mtbls )
          if (strcmp( tok, "VALUE")==0)
             {
             int  vpos;
-            tok = strtok_r( NULL, "\t\n,=", &ptr );
+            int  tlen;
+            char *rest;
+/*
+ * the values are taken from the line itself, kptr has been cut by strtok_r
+ */
+            rest = ligne + (tok - kptr) + strlen( tok );
+            tok = bufr_next_tmplt_value( &rest, "\t\n,=" );
             while ( tok )
                {
                vpos = code.nbval;
@@ -734,6 +741,15 @@ BUFR_Template *bufr_load_template( const char *filename, BUFR_Tables *mtbls )
                   {
                   case VALTYPE_STRING :
                      code.values[vpos] = bufr_create_value( vtype );
+/*
+ * bufr_save_template writes strings between quotes
+ */
+                     tlen = strlen( tok );
+                     if ((tok[0] == '"')&&(tlen > 1)&&(tok[tlen-1] == '"'))
+                        {
+                        tok[tlen-1] = '\0';
+                        ++tok;
+                        }
                      bufr_value_set_string( code.values[vpos], tok, vlen );
                      break;
 /*
@@ -768,7 +784,7 @@ BUFR_Template *bufr_load_template( const char *filename, BUFR_Tables *mtbls )
                   default :
                      break;
                   }
-               tok = strtok_r( NULL, "\t\n,", &ptr );
+               tok = bufr_next_tmplt_value( &rest, "\t\n," );
                }
             }
          }
@@ -806,6 +822,49 @@ BUFR_Template *bufr_load_template( const char *filename, BUFR_Tables *mtbls )
       }
 
    return tmplt;
+   }
+
+/**
+ * @english
+ * Return the next default value of a template definition line, the way
+ * strtok_r() would, except that a value which begins with a double quote
+ * extends to the quote that closes it, i.e. the next one that is followed by 
+ * a comma, a tab or the end of the line: separators between the quotes belong 
+ * to the value.
+ * @param  rest    where to continue in the line, updated
+ * @param  delims  characters that separate values
+ * @return the value, terminated in place, or NULL if there is none left
+ * @endenglish
+ * @francais
+ * @todo translate to French
+ * @endfrancais
+ * @ingroup template internal
+ */
+static char *bufr_next_tmplt_value( char **rest, const char *delims )
+   {
+   char *tok, *end;
+
+   tok = *rest + strspn( *rest, delims );
+   if (*tok == '\0')
+      {
+      *rest = tok;
+      return NULL;
+      }
+
+   end = tok;
+   if (*tok == '"')
+      {
+      char *q = strchr( tok+1, '"' );
+      while (q && (q[1] != '\0') && (strchr( "\t\n,", q[1] ) == NULL))
+         q = strchr( q+1, '"' );
+      if (q) 
+         end = q + 1;
+      }
+   end += strcspn( end, delims );
+   if (*end != '\0')
+      *end++ = '\0';
+   *rest = end;
+   return tok;
    }
 
 /**
